@@ -67,11 +67,15 @@ CLAIMED = {
              "firmware image as a z3 array of symbolic length 1..32768 and unconstrained content "
              "(symbolic indices, no enumeration of lengths; the pad loop forks on length mod 128), "
              "plus a bit-vector proof that crcmod's table-driven update step equals eight "
-             "bit-steps of CRC-16/MODBUS for arbitrary state and byte (inductive: every length)",
+             "bit-steps of CRC-16/MODBUS for arbitrary state and byte (inductive: every length), "
+             "plus load_fw with the installed intelhex parser interpreted from source on a hex "
+             "file whose record structure is enumerated (1..2 records + EOF; thorough 1..3) and "
+             "whose every hex digit is symbolic, against the format's definition",
         note="compute_crc is an uninterpreted function in the image harness, its definition is "
              "proved in the crc-kernel harness; int(len/16) exact below 2**53; crcmod C kernel vs "
-             "Python twin on samples; Intel-HEX parsing is NOT claimed (third-party parser behind "
-             "file I/O)",
+             "Python twin on samples; Intel-HEX: data addresses < 16, base words < 2, record "
+             "lengths <= 2, overlapping records and data on both sides of a 64 KiB base change "
+             "outside the claim; open() is a stub, the parser is the installed package's source",
         technique="symbolic execution of the Python source with z3 arrays + bit-vectors (own AST "
                   "interpreter), exhaustive path enumeration, native replay"),
     "C11": dict(
